@@ -78,6 +78,11 @@ impl JSON {
 
             _line = boxed_line.unwrap();
             let buffer_filtered_control_chars = StringExt::filter_ascii_control_characters(_line.as_str());
+            let is_empty_object = properties.len() == 0 && buffer_filtered_control_chars.trim() == "}";
+            if is_empty_object {
+                // "{ }": what to_json_string writes for a struct without any property set
+                return Ok(properties);
+            }
             if buffer_filtered_control_chars != "\"" {
                 let message = format!("provided json is not valid");
                 return Err(message);
@@ -580,7 +585,7 @@ impl JSON {
                     }
 
 
-                    let is_number = char.is_numeric();
+                    let is_number = char.is_numeric() || char == '-';
                     if is_number {
                         // read until char is not number and decimal point, minus, exponent
 
